@@ -10,6 +10,8 @@ pub mod job;
 mod restore;
 pub mod state;
 mod tako_events;
+#[cfg(feature = "verif")]
+pub mod verif;
 pub mod worker;
 
 #[derive(Clone)]
